@@ -24,6 +24,17 @@ def profile(tier):
     return {"fault_pct": 10, "max_ops": 40 if tier == "quick" else 60, "min_ops": 3}
 
 
+def profile_fall(tier):
+    """Modulated channels, pulses followed by runs of short delays and retargets: the
+    duration 'including the pending fall time' after several trailing non-pulse slots."""
+    return {"fault_pct": 2, "min_ops": 6, "max_ops": 26, "min_channels": 1, "max_channels": 2,
+            "measure": False, "slm": False, "dmm": False,
+            "weights": {"declare": 6, "declare_more": 1, "add": 8, "align": 1, "delay": 12,
+                        "phase_shift": 0, "target": 3, "eom": 0},
+            "device": gen.device_specs(n_channels=(1, 2), allow_builtin=False, allow_dmm=False,
+                                       chan_kw={"bandwidth": [2, 4, 8, 8], "eom": False})}
+
+
 def check(case, ctx: Ctx):
     w = history.Walker(case, ctx, {"C02"}).run()
     if not w.aborted:
@@ -48,4 +59,7 @@ CLAUSES = [
     Clause("timeline", check, gen=lambda t: gen.programs(profile(t)),
            budget={"quick": (16, 60), "thorough": (16, 4000)},
            doc="M1 invariants after every step + sample()/str() views at the end"),
+    Clause("fall_time_durations", check, gen=lambda t: gen.programs(profile_fall(t)),
+           budget={"quick": (8, 80), "thorough": (16, 2500)},
+           doc="modulated channels: pulses followed by runs of short delays / retargets"),
 ]
